@@ -109,8 +109,9 @@ def check_codec(ctx, rep, wq, rq, label, expect_all_fields):
             ipf = init_param_fields(ctx)
             # read in place as the iterable of a loop: the loop variable carries the value on
             for lp in ast.walk(rfi.node):
-                if isinstance(lp, ast.For) and lp.iter is sub and isinstance(lp.target, ast.Name):
-                    sinks |= sinks_of(ctx, rfi, lp.target.id, node_var)
+                if isinstance(lp, ast.For) and (lp.iter is sub or (isinstance(lp.iter, ast.Call) and isinstance(lp.iter.func, ast.Attribute)
+                                                                   and lp.iter.func.attr in ("items", "keys", "values") and lp.iter.func.value is sub)):
+                    sinks |= sinks_of(ctx, rfi, None, node_var, source_loop=lp)
             for c in ast.walk(rfi.node):
                 if isinstance(c, ast.Call) and isinstance(c.func, ast.Attribute) and any(any(x is sub for x in ast.walk(a)) for a in c.args):
                     from ..layout import method_field as _mf
@@ -263,10 +264,15 @@ def rule_r4(ctx, rep, current, legacy):
     inserts = []
     body_loop = None
     for n in ast.walk(fi.node):
-        if isinstance(n, ast.For) and isinstance(n.iter, ast.Name) and n.iter.id == fi.params[0]:
-            body_loop = n
+        if isinstance(n, ast.For):
+            it = n.iter
+            # for node in model / model.keys() / model.values() / model.items(): one round per serialised node body
+            if isinstance(it, ast.Call) and isinstance(it.func, ast.Attribute) and it.func.attr in ("keys", "values", "items") and not it.args:
+                it = it.func.value
+            if isinstance(it, ast.Name) and it.id == fi.params[0]:
+                body_loop = n
     if body_loop is None:
-        raise AnalysisError("anchor vanished: `for node in model` in to_20210209")
+        raise AnalysisError("anchor vanished: the loop over the serialised model in to_20210209")
     for s in body_loop.body:
         if isinstance(s, ast.Expr) and isinstance(s.value, ast.Call) and isinstance(s.value.func, ast.Attribute) and s.value.func.attr == "insert":
             c = s.value
